@@ -18,7 +18,9 @@ The only hypotheses are `ParserWF e`, the day range 1900–9999 (outside: `C01_m
    for every `d`): both day offsets within ±92 000 000 days (about ±252 000 years: as far as the years the code looks
    at are years of chrono's calendar) between two fixed dates without a year — for a single day the END offset only —,
    within ±30 000 000 days from a start with a year to a yearless end, within ±300 000 days when one of the two dates
-   is Easter; NO bound at all when both dates carry a year — and a defined meaning (not "no year … year") —
+   is Easter; NO bound at all when both dates carry a year; and, beyond representability, any yearless start moved
+   by +99 500 000 days or more (nothing ever starts before 10000-01-01: both sides say "never",
+   OH/Proofs/DatedFar.lean) — and a defined meaning (not "no year … year") —
    NOTHING ELSE: bounds with or without a year, single days, any weekday shift, shifts of several years,
    occurrences longer than a year, offsets that differ by years (`Jan 01 +400 days-Jan 10 +770 days`).
    This is what centring the pairing windows of `MonthdayRange::Date` on the year of `d - day offset`
@@ -379,7 +381,8 @@ two years after a start with a year: all inside the rule-level class (`Jan 1 +80
 `Jan 01 -Mo -92000000 days-Dec 31 +Su +92000000 days`, `Jan 01 +92000000 days-Jan 10 -92000000 days`,
 `Feb 29 -10¹² days-Feb 29 +92000000 days`,
 `2020 Jan 1 -30000000 days-Feb 1 +30000000 days`, `easter -300000 days-easter +300000 days`, and with two years
-any offsets: `2020 Jan 1 -1000000000 days-2021 easter +1000000000 days`) -/
+any offsets: `2020 Jan 1 -1000000000 days-2021 easter +1000000000 days`; beyond representability:
+`easter +99500000 days-Dec 31 -Mo -9000000000000000000 days`) -/
 example :
     let e : Expr := [⟨⟨[], [.date (.fixed none 1 1) ⟨.none, 800⟩ (.fixed none 1 5) ⟨.none, 800⟩,
                             .date (.fixed none 1 1) ⟨.none, 400⟩ (.fixed none 1 10) ⟨.none, 770⟩,
@@ -391,7 +394,8 @@ example :
                             .date (.fixed none 2 29) ⟨.none, -1000000000000⟩ (.fixed none 2 29) ⟨.none, 92000000⟩,
                             .date (.fixed (some 2020) 1 1) ⟨.none, -30000000⟩ (.fixed none 2 1) ⟨.none, 30000000⟩,
                             .date (.easter none) ⟨.none, -300000⟩ (.easter none) ⟨.none, 300000⟩,
-                            .date (.fixed (some 2020) 1 1) ⟨.none, -1000000000⟩ (.easter (some 2021)) ⟨.none, 1000000000⟩], [], []⟩,
+                            .date (.fixed (some 2020) 1 1) ⟨.none, -1000000000⟩ (.easter (some 2021)) ⟨.none, 1000000000⟩,
+                            .date (.easter none) ⟨.none, 99500000⟩ (.fixed none 12 31) ⟨.prev 0, -9000000000000000000⟩], [], []⟩,
       [TimeSpan.fullDay], .open, .normal, []⟩]
     ParserWF e = true ∧ exprDatedPlain e = true := by decide +kernel
 
